@@ -22,7 +22,9 @@ interceptor `· % m`: the programs name ids in the callers' spellings, `initI`; 
          a subscriber may carry a 4th letter: its include function `n|a|b|c|d` (see `parseIncl?`), and a 5th: the
          resource's equivalence `n` none, `e` equal bodies, `l` / `t` equal first / second field, as `Collection.Pull`
          applies it (the change's own old value against its new value); `E|L|T`: the same as `Value.Pull` applies it
-         (the value sent last against the new value)
+         (the value sent last against the new value); `a` / `A`: a TOLERANCE (both fields within 2 of each other, a
+         zero field - unpopulated in proto3 - equivalent to a zero field only: reflexive and symmetric, NOT transitive -
+         `cmp.Equal(cmp.FloatValueApprox(0, 2))`, see `tolField`)
 Answer: `store=…|S0=<live|gone|unreg>:<view>:<events>|…|pubs=<in flight>|lock=<0|1>|ord=<0|1>`
 (view and events are what the consumer RECEIVES: after include and read mask)
 
@@ -122,6 +124,12 @@ def cmpOf (eq : V → V → Bool) : Option V → Option V → Bool
   | some a, some b => eq a b
   | _, _ => false
 
+/-- one float field under `cmp.Equal(cmp.FloatValueApprox(0, 2))`: `equalMessage` first compares which fields are
+POPULATED (a proto3 scalar at its zero value is not), so zero is equivalent to zero only; two populated fields are
+equivalent when within 2 of each other -/
+def tolField (x y : Int) : Bool :=
+  if x = 0 ∨ y = 0 then x == y else decide ((x - y).natAbs ≤ 2)
+
 /-- the resource's equivalence: (applied as `Value.Pull` does?, the comparer) -/
 def parseEq? (c : Char) : Option (Option (Bool × (Option V → Option V → Bool))) :=
   let isVal := c.isUpper
@@ -130,6 +138,7 @@ def parseEq? (c : Char) : Option (Option (Bool × (Option V → Option V → Boo
   else if c = 'e' then some (some (isVal, cmpOf (fun a b => a == b)))
   else if c = 'l' then some (some (isVal, cmpOf (fun a b => a.1 == b.1)))
   else if c = 't' then some (some (isVal, cmpOf (fun a b => a.2 == b.2)))
+  else if c = 'a' then some (some (isVal, cmpOf (fun a b => tolField a.1 b.1 && tolField a.2 b.2)))
   else none
 
 def parseSubEq? (s : String) : Option (Option (Bool × (Option V → Option V → Bool))) :=
